@@ -9,6 +9,7 @@ use crate::world::{self, connect, runtime, Caught};
 use ldap3::{Ldap, Scope};
 use serde_json::{json, Value};
 use std::collections::HashMap;
+use std::sync::atomic::Ordering::SeqCst;
 use std::time::Duration;
 use tokio::time::Instant;
 
@@ -70,17 +71,30 @@ async fn timing_server(mut server: ServerEnd) -> HashMap<u64, i64> {
                     let n_items = parts.len() - 1;
                     let end = (off + size).min(n_items);
                     for k in off..end {
-                        let d: u64 = match parts[k].parse() {
+                        let mut d: u64 = match parts[k].parse() {
                             Ok(d) => d,
                             Err(_) => return,
                         };
+                        if k == off && off > 0 {
+                            // the first half of this gap was spent before the previous page's result
+                            d -= d / 2;
+                        }
                         if d > 0 {
                             tokio::time::sleep(Duration::from_millis(d)).await;
                         }
                         tx.send(&ber::encode_min(&resp_node(id, &Resp::Entry { dn: format!("e={}.{},dc=x", tok, k).into_bytes(), attrs: vec![] }, None)));
                     }
-                    if end < n_items || (end == n_items && off < end && n_items > 0 && false) {
-                        // page boundary: the page's result carries the cookie for the next one, at once
+                    if end < n_items {
+                        // page boundary: the page's result (with the cookie for the next page) arrives half-way
+                        // through the gap before the next item, so that the wait for it and the wait for the
+                        // next page's first item are two waits of their own
+                        let half: u64 = match parts[end].parse::<u64>() {
+                            Ok(g) => g / 2,
+                            Err(_) => return,
+                        };
+                        if half > 0 {
+                            tokio::time::sleep(Duration::from_millis(half)).await;
+                        }
                         let c = RespCtl { oid: PAGED_OID.into(), crit: CritEnc::Absent, val: Some(paged_value(0, end.to_string().as_bytes())) };
                         tx.send(&ber::encode_min(&resp_node(id, &Resp::Done(Res::ok("page")), Some(&[c]))));
                     } else {
@@ -275,14 +289,36 @@ fn expected(op: &TimedOp) -> (Vec<(u64, Ev)>, bool) {
             let mut now = 0u64;
             let mut timed_out = false;
             for (k, g) in gaps.iter().enumerate() {
+                let boundary = matches!(op.paged, Some(p) if k > 0 && k % (p as usize) == 0);
                 if let Some(t) = op.timeout {
-                    if *g > t {
-                        evs.push((now + t, Ev::Timeout));
-                        timed_out = true;
-                        break;
-                    }
-                    if *g == t {
-                        tie = true;
+                    if boundary {
+                        // two waits: g/2 for the previous page's result, the rest for this page's first item
+                        let (a, b) = (*g / 2, *g - *g / 2);
+                        if a == t || b == t {
+                            tie = true;
+                        }
+                        if a > t {
+                            evs.push((now + t, Ev::Timeout));
+                            timed_out = true;
+                            break;
+                        }
+                        if b > t {
+                            evs.push((now + a + t, Ev::Timeout));
+                            timed_out = true;
+                            break;
+                        }
+                        if a == t || b == t {
+                            tie = true;
+                        }
+                    } else {
+                        if *g > t {
+                            evs.push((now + t, Ev::Timeout));
+                            timed_out = true;
+                            break;
+                        }
+                        if *g == t {
+                            tie = true;
+                        }
                     }
                 }
                 now += g;
@@ -489,6 +525,104 @@ fn classify(want: &[(u64, Ev)], got: &[(u64, Ev)], op: &TimedOp) -> String {
         }
     }
     "extra-events".into()
+}
+
+/// The deadline of an operation does not depend on what the driver is busy with: while the driver is
+/// stuck writing another handle's large request (the peer has stopped reading), a timed operation -
+/// single, the start of a streaming search, or a search() call - still fails with Timeout at its
+/// deadline, and is cleaned up once the peer reads again.
+pub fn stalled_driver(ctx: &Ctx) -> Report {
+    let n = ctx.n(4_000, 1_000_000);
+    par_cases(ctx, "stalled_driver", n, ctx.secs(15, 200), |i, rng, rep| {
+        let t_ms = *rng.pick(&[1u64, 10, 50, 100, 250]);
+        let kind = rng.below(3);
+        let release_after = 300 + rng.below(500);
+        let big = 2_000 + rng.usize(100_000);
+        let rt = runtime(rng.next());
+        let (obs, elapsed, table, maps, later) = rt.block_on(async move {
+            let c = connect();
+            let ldap = c.ldap;
+            let mut server = c.server;
+            let ctl = server.ctl();
+            let gauges = ldap.verif_gauges();
+            ctl.stall_writes_after(big / 2);
+            let mut lx = ldap.clone();
+            let x = tokio::spawn(async move { lx.add(&format!("op=9,cn={}", "x".repeat(big)), vec![("a", std::collections::HashSet::from(["v"]))]).await.map(|r| r.rc) });
+            crate::world::settle().await;
+            let rel = ctl.clone();
+            let releaser = tokio::spawn(async move {
+                tokio::time::sleep(Duration::from_millis(release_after)).await;
+                rel.release_writes();
+            });
+            let mut lt = ldap.clone();
+            lt.with_timeout(Duration::from_millis(t_ms));
+            let t0 = Instant::now();
+            let obs = match kind {
+                0 => match Caught::new(lt.delete("op=1,b=d0")).await {
+                    Ok(Ok(_)) => "Ok".to_string(),
+                    Ok(Err(ldap3::LdapError::Timeout { .. })) => "Timeout".into(),
+                    Ok(Err(e)) => format!("Err({})", world::err_class(&e)),
+                    Err(p) => format!("Panic({})", p.site()),
+                },
+                1 => match Caught::new(lt.streaming_search("op=1,b=g0:0", Scope::Subtree, "(a=b)", vec!["*"])).await {
+                    Ok(Ok(_)) => "Ok".to_string(),
+                    Ok(Err(ldap3::LdapError::Timeout { .. })) => "Timeout".into(),
+                    Ok(Err(e)) => format!("Err({})", world::err_class(&e)),
+                    Err(p) => format!("Panic({})", p.site()),
+                },
+                _ => match Caught::new(lt.search("op=1,b=g0:0", Scope::Subtree, "(a=b)", vec!["*"])).await {
+                    Ok(Ok(_)) => "Ok".to_string(),
+                    Ok(Err(ldap3::LdapError::Timeout { .. })) => "Timeout".into(),
+                    Ok(Err(e)) => format!("Err({})", world::err_class(&e)),
+                    Err(p) => format!("Panic({})", p.site()),
+                },
+            };
+            let elapsed = t0.elapsed().as_millis() as u64;
+            let _ = releaser.await;
+            // the peer reads again: serve whatever arrives
+            let srv = tokio::spawn(timing_server(server));
+            let _ = world::watchdog(x).await;
+            tokio::time::sleep(Duration::from_secs(5)).await;
+            let table = ldap.verif_id_table().1;
+            let maps = (gauges.resultmap_len.load(SeqCst), gauges.searchmap_len.load(SeqCst));
+            let mut l2 = ldap.clone();
+            let later = match world::watchdog(l2.delete("op=2,b=d0")).await {
+                Ok(Ok(r)) => format!("Ok({})", r.rc),
+                Ok(Err(e)) => format!("Err({})", world::err_class(&e)),
+                Err(()) => "Hung".into(),
+            };
+            drop(ldap);
+            drop(l2);
+            drop(lt);
+            srv.abort();
+            let _ = c.driver.await;
+            (obs, elapsed, table, maps, later)
+        });
+        let what = ["single", "stream-start", "search()"][kind as usize];
+        let replay = json!({"lane":"stalled_driver","case":i});
+        let desc = format!("{} with a {} ms timeout while the driver is stuck writing (released after {} ms): {} after {} ms", what, t_ms, release_after, obs, elapsed);
+        if obs != "Timeout" {
+            rep.violation(format!("C12:stalled-driver:{}:{}-instead-of-timeout", what, obs.split('(').next().unwrap_or("?").to_lowercase()), desc.clone(), replay.clone());
+        } else if elapsed > t_ms {
+            rep.violation(format!("C12:stalled-driver:{}:timeout-fired-late", what), desc.clone(), replay.clone());
+        } else if elapsed < t_ms {
+            rep.violation(format!("C12:stalled-driver:{}:timeout-fired-early", what), desc.clone(), replay.clone());
+        }
+        if !table.is_empty() {
+            rep.violation("C12:id-not-released-after-timeout", format!("{}; IDs still reserved {:?}", desc, table), replay.clone());
+        }
+        if maps != (0, 0) {
+            rep.violation("C12:routing-state-retained-after-timeout", format!("{}; maps {:?}", desc, maps), replay.clone());
+        }
+        if !later.starts_with("Ok(") {
+            rep.violation("C12:connection-not-usable-after-timeouts", format!("{}; later operation {}", desc, later), replay.clone());
+        }
+        rep.count(&format!("stalled_{}", what), 1);
+        if i < 2 {
+            rep.sample(json!({"lane":"stalled_driver","case":i,"observed":desc}));
+        }
+        rep.case(Some(fnv(format!("{}{}{}{}", t_ms, kind, release_after, big).as_bytes())));
+    })
 }
 
 pub fn timeouts(ctx: &Ctx) -> Report {
